@@ -297,6 +297,18 @@ def verify_guard(f, s, entry):
             return True, "operand %d derives from `%s`" % (idx, needle)
         return False, "operand %d no longer derives from `%s` (got %s)" % (
             idx, needle, sorted(n.rsplit("::", 1)[-1] for n in names)[:8])
+    if "typestate" in g:
+        from lib import typestate
+        ts = g["typestate"]
+        vm = typestate.VariantMay(f, ts["adt"], ts["place"])
+        if not vm.reachable(s["bb"]):
+            return True, "unreachable in the variant may-analysis of %s" % ts["place"]
+        may = vm.at(s["bb"]) or frozenset()
+        extra = sorted(may - set(ts["within"]))
+        if not extra:
+            return True, "%s can only be %s here" % (ts["place"], sorted(may))
+        return False, ("%s may be %s when control reaches this assertion (it only admits %s)"
+                       % (ts["place"], extra, ts["within"]))
     if "op_const_below" in g:
         idx, bound = g["op_const_below"]
         try:
